@@ -109,7 +109,21 @@ func ElemValid(e *banderwagon.Element) bool {
 	return p.Affine().OnCurve()
 }
 
-// Rerepresent returns another representation of the same element:
+// NumRepKinds is the number of representation kinds of Rerepresent.
+const NumRepKinds = 8
+
+var repLambdas = func() []*big.Int {
+	var out []*big.Int
+	for _, sh := range []uint{64, 128, 192} {
+		v := new(big.Int).Lsh(bigOne, sh)
+		out = append(out, v, new(big.Int).Add(v, bigOne), new(big.Int).Add(new(big.Int).Mul(v, big.NewInt(3)), bigOne))
+	}
+	out = append(out, new(big.Int).Sub(ref.P, bigOne), new(big.Int).Sub(ref.P, big.NewInt(2)), new(big.Int).Add(new(big.Int).Lsh(bigOne, 254), bigOne),
+		new(big.Int).Sub(new(big.Int).Lsh(bigOne, 64), bigOne), big.NewInt(2), big.NewInt(3))
+	return out
+}()
+
+// Rerepresent returns another representation of the same element (kinds 6, 7: limb-structured / Montgomery-small factors):
 // kind 0 = normalised Z=1; 1 = scaled by 2; 2 = scaled by random; 3 = other
 // class member, Z=1; 4 = other class member, scaled; 5 = scaled by -1.
 func Rerepresent(e *banderwagon.Element, kind int, rng *rand.Rand) banderwagon.Element {
@@ -118,7 +132,15 @@ func Rerepresent(e *banderwagon.Element, kind int, rng *rand.Rand) banderwagon.E
 		return *e
 	}
 	a := ref.FromAffine(p.Affine())
-	switch kind % 6 {
+	switch kind % NumRepKinds {
+	case 6:
+		// limb-structured rescaling factor (regular value with low limb 0 or 1 and higher limbs set, p-1, ...)
+		l := repLambdas[rng.Intn(len(repLambdas))]
+		return ElemFromRef(a, l, rng.Intn(2) == 0)
+	case 7:
+		// rescaling factor whose MONTGOMERY representation is a small integer (raw limbs [k,0,0,0])
+		l := new(big.Int).Mod(new(big.Int).Mul(big.NewInt(int64(1+rng.Intn(3))), rInvFp), ref.P)
+		return ElemFromRef(a, l, rng.Intn(2) == 0)
 	case 0:
 		return ElemFromRef(a, nil, false)
 	case 1:
